@@ -43,3 +43,23 @@ TEXT = {
         "level_note": "<=19 ops, <=10 palette supervoxels, one block size (16^3), extent 3x2x2 blocks; split volumes are proper subsets; 'split' (body split) endpoint not exercised (disabled by default configuration); maxlabel/nextlabel belong to C12.",
     },
 }
+
+
+def _load_entries():
+    import glob, os, re
+    here = os.path.dirname(os.path.abspath(__file__))
+    for f in sorted(glob.glob(os.path.join(here, "harness", "props", "*", "manifest_entry.py"))):
+        ns = {}
+        exec(compile(open(f).read(), f, "exec"), ns)
+        for k, v in list(ns.items()):
+            if k.startswith("__") or not isinstance(v, dict):
+                continue
+            if re.fullmatch(r"C\d\d", k) and k not in TEXT:
+                TEXT[k] = v
+            elif v and all(isinstance(kk, str) and re.fullmatch(r"C\d\d", kk) and isinstance(vv, dict) for kk, vv in v.items()):
+                for kk, vv in v.items():
+                    if kk not in TEXT:
+                        TEXT[kk] = vv
+
+
+_load_entries()
